@@ -36,7 +36,7 @@ TIERS = {
             'thorough': dict(runs=None, budget_s=420, hashseeds=16, minimise_s=120)},
 }
 RUN_LIMIT_S = {'C20': 30}
-KINDS = ['mech-array', 'mech-dict', 'mech-dict-base', 'mst', 'adagrid', 'mwem', 'scale', 'noise']
+KINDS = ['mech-array', 'mech-dict', 'mech-dict-base', 'mst', 'adagrid', 'mwem', 'scale', 'noise', 'best']
 
 
 def gen_q(rnd, n):
@@ -87,6 +87,9 @@ def gen_case(rnd, prop, tier):
         c['toggle'] = rnd.random() < 0.4       # the adjacency flag takes its final value after construction
         c['l'] = rnd.choice([1.0, 2.0, 0.5, 3.7])
         c['delta'] = rnd.choice([1e-9, 1e-6, 1e-3])
+    if kind == 'best':
+        c['reqs'] = [[rnd.choice([1.0, 2.0, 50.0]), rnd.choice([1.0, 1.0, 7.0]), rnd.choice([0.05, 0.1, 1.0, 10.0])] for _ in range(rnd.choice([1, 2, 3]))]
+        c['size'] = rnd.choice([1, 3, 16])
     if kind == 'noise':
         c['size'] = rnd.choice([1, 2, 7, 64])
         c['scale'] = rnd.choice([0.1, 1.0, 3.3, 250.0])
@@ -153,7 +156,7 @@ def run_case(case, prop):
     tagbase = 'kind=%s eps=%s sens=%s n=%d' % (kind, case['eps'], sens, len(q))
     try:
         with np.errstate(all='ignore'):
-            if kind in ('mech-array', 'mech-dict', 'mech-dict-base', 'scale', 'noise'):
+            if kind in ('mech-array', 'mech-dict', 'mech-dict-base', 'scale', 'noise', 'best'):
                 if kind == 'scale' and case.get('toggle'):
                     mech = get_mech(not case['bounded'], rng)
                     mech.bounded = case['bounded']
@@ -244,6 +247,25 @@ def run_case(case, prop):
                 if not np.isclose(g, wantg, rtol=1e-12):
                     viol.append(Violation('c20-scale', 'scale:gaussian', 'gaussian_noise_scale(%g, ...) with bounded=%s returned %r, expected sensitivity x calibrated sigma = %r' % (case['l'], case['bounded'], g, wantg)).as_dict())
                 steps += 2
+            elif kind == 'best':
+                from autodp import privacy_calibrator
+                samplers = []
+                for l1, l2, e_ in case['reqs']:
+                    samplers.append((mech.best_noise_distribution(l1, l2, e_, 1e-6), l1, l2, e_))
+                mult = 2.0 if case['bounded'] else 1.0
+                for k, (smp, l1, l2, e_) in enumerate(samplers):       # every sampler is used only after all of them were created
+                    b, sg = l1 * mult / e_, l2 * mult * privacy_calibrator.SENTINEL_SIGMA
+                    want_kind, want_scale = ('laplace', b) if np.sqrt(2) * b < sg else ('normal', sg)
+                    n0 = len(rng.events)
+                    smp(case['size'])
+                    steps += 1
+                    evs = rng.events[n0:]
+                    if len(evs) != 1 or evs[0]['kind'] != want_kind or evs[0]['n'] != case['size'] or not np.isclose(float(np.max(np.asarray(evs[0]['scale']))), want_scale, rtol=1e-12):
+                        viol.append(Violation('c20-noise', 'best-noise:scale', 'sampler #%d of %d returned by best_noise_distribution(l1=%g, l2=%g, eps=%g) drew %s, calibrated %s with scale %r' % (
+                            k, len(samplers), l1, l2, e_, [(e['kind'], e['n'], e['scale']) for e in evs], want_kind, want_scale)).as_dict())
+                        break
+                if len(samplers) > 1:
+                    faults['samplers-used-after-later-requests'] = 1
             elif kind == 'noise':
                 n0 = len(rng.events)
                 fn = mech.gaussian_noise if case['dist'] == 'gaussian' else mech.laplace_noise
@@ -268,7 +290,7 @@ def run_case(case, prop):
         faults['rng-' + k] = v
     if case['calls'] > 1:
         faults['repeated-call-same-objects'] = 1
-    nontrivial = (len(q) >= 3 and len(set(case['q'])) > 1) if kind not in ('scale', 'noise') else (kind == 'noise' and case['size'] > 1)
+    nontrivial = (len(q) >= 3 and len(set(case['q'])) > 1) if kind not in ('scale', 'noise', 'best') else ((kind == 'noise' and case['size'] > 1) or (kind == 'best' and len(case['reqs']) > 1))
     opts = [case.get('monotonic'), case.get('bounded') if kind in ('scale', 'mwem') else None, case.get('penalty'), case['eps'] == 'inf', case.get('dtype'),
             case.get('base_order') != case.get('order') if kind == 'mech-dict-base' else None]
     measure = [kind, opts, len(q) if len(q) < 8 else 'many', case['style'], case['mag'], case['calls'], case['shift'] != 0]
